@@ -174,6 +174,57 @@ def run(ctx):
         ctx.ob("C20.R2h", L.short(fn), bool(syncs) and bool(moves) and all(ig.dominated_by(m, syncs) for m in moves), fn.loc,
                "overflow() must bring the byte count up to date (sync) before it moves the put area and the sync point to the new page")
 
+    # ---------------------------------------------------------------- R2i begin() resets what a run writes; end() syncs
+    def this_fields_written(fn):
+        out = set()
+        for _, ev in fn.all_events():
+            if ev["e"] == "asg":
+                lhs = strip_cast(ev.get("lhs"))
+                # *_pages++ = page writes through _pages and advances it
+                for sd in walk(lhs):
+                    if sd.get("k") == "f" and isinstance(strip_cast(sd.get("b")), dict) and strip_cast(sd["b"]).get("k") == "this":
+                        out.add(sd.get("n"))
+                if is_log_size(lhs):
+                    out.add("_log.size")
+                if isinstance(lhs, dict) and lhs.get("k") == "f" and strip_cast(lhs.get("b", {})).get("n") == "_log":
+                    out.add("_log." + lhs.get("n"))
+            if ev["e"] == "call" and ev.get("name") == "setp":
+                out.add("<put area>")
+        return out
+    bufs = dict((f.name, f) for f in fb.find(pred=lambda f: f.record == BUF and f.has_cfg()))
+    if "begin" in bufs:
+        run_w = set()
+        for nm in ("overflow", "sync", "overflow_page_table"):
+            if nm in bufs:
+                run_w |= this_fields_written(bufs[nm])
+        beg_w = this_fields_written(bufs["begin"])
+        # the head pointer of the page-table chain lives in the entry and is overwritten before it is read (R2b): not state of the buffer
+        missing = sorted(x for x in run_w - beg_w if x not in ("_log", "_log.head"))
+        ctx.ob("C20.R2i", "LogStreamBuffer::begin", not missing, bufs["begin"].loc,
+               "begin() does not reset %s, which overflow()/sync() modify while an entry is streamed: the next entry starts with the "
+               "previous entry's cursor / byte count" % missing)
+    if "end" in bufs:
+        ig = IG(bufs["end"], inline=nin)
+        syncs = list(L.call_nodes(ig, name="sync"))
+        rets = [n for n in ig.ev_nodes() if n.ev["e"] == "ret"]
+        ctx.ob("C20.R2j", "LogStreamBuffer::end", bool(syncs) and all(ig.dominated_by(r_, syncs) for r_ in rets), bufs["end"].loc,
+               "end() must bring the byte count up to date before it hands the entry out")
+    # ---------------------------------------------------------------- R4d a destination's index is its position
+    for fn in fb.find(pred=lambda f: f.record == APP and f.name == "destination" and f.has_cfg()):
+        ig = IG(fn, inline=nin)
+        live = ig.live_nodes()
+        sets = list(L.call_nodes(ig, name="set_index", live=live))
+        adds = [n for n in ig.ev_nodes() if n.id in live and n.ev["e"] == "call" and n.ev.get("name") in ("emplace_back", "push_back")]
+        ok = len(sets) == 1 and len(adds) == 1
+        if ok:
+            org = [o for o in ig.origins_at(strip_cast(ig.rarg(sets[0], 0)), sets[0])]
+            a0 = ig.ev_of(strip_cast(org[0])) if len(org) == 1 else None
+            ok = a0 is not None and a0.ev.get("name") == "size" and pstr(strip_cast(ig.rthis(a0))) == pstr(strip_cast(ig.rthis(adds[0]))) and \
+                ig.path_exists(a0, adds[0]) and not ig.path_exists(adds[0], a0)
+        ctx.ob("C20.R4d", L.short(fn), ok, fn.loc,
+               "a file's destination index must be the position its destination is appended at (size() read before the append): with "
+               "any other value two files share one scatter list and entries are written to the wrong file")
+
     # ---------------------------------------------------------------- R2 stream buffer
     for fn in fb.find(pred=lambda f: f.record == BUF and f.name == "overflow" and f.has_cfg()):
         inst = L.short(fn)
